@@ -64,7 +64,7 @@ Lemma run_prog_quiet k now i : forall p s s', AgreeX i s s' ->
    snd (run_prog false k now i 0 p s) <> RPanic /\
    AgreeX i (fst (run_prog false k now i 0 p s)) (fst (run_prog false k now i 0 (map quiet_act p) s'))) \/
   (snd (run_prog false k now i 0 p s) = RPanic /\ snd (run_prog false k now i 0 (map quiet_act p) s') = RQuiet /\
-   exists s2 s2', AgreeX i s2 s2' /\ fst (run_prog false k now i 0 p s) = say (IPanic i 0) s2 /\
+   exists s2 s2', AgreeX i s2 s2' /\ fst (run_prog false k now i 0 p s) = say (IPanic i 0 (catchf (w_mod (x_w s2) i))) s2 /\
                   fst (run_prog false k now i 0 (map quiet_act p) s') = quiet i s2').
 Proof.
   induction p as [|a p IH]; intros s s' H; cbn [map run_prog fst snd].
@@ -85,6 +85,7 @@ Record Div (i : N) (w w' : world) : Prop := {
   dv_inc : inc (w_mod w i) = inc (w_mod w' i);
   dv_bud : bud (w_mod w i) = bud (w_mod w' i);
   dv_tp : tpanics (w_mod w i) = tpanics (w_mod w' i);
+  dv_catch : catchf (w_mod w i) = catchf (w_mod w' i);
   dv_ready : ready (w_mod w' i) = [];
   dv_shut : shut (w_mod w' i) = Some (match shut (w_mod w i) with Some r => r | None => None end) }.
 
@@ -110,10 +111,10 @@ Proof.
   - right. subst res1 res1' r1 r1'. cbn [fst snd]. split; [reflexivity|split; [reflexivity|]].
     destruct E3 as [[a b c0] _]. unfold quiet.
     destruct (shut (w_mod (x_w s2') i)) as [r|] eqn:Es; unfold request; cbn [say on_w x_w].
-    + constructor; cbn [w_buf w_mod set_mod]; rewrite ?N.eqb_refl; cbn [timers nw inc bud tpanics ready shut set_ready];
+    + constructor; cbn [w_buf w_mod set_mod]; rewrite ?N.eqb_refl; cbn [timers nw inc bud tpanics catchf ready shut set_ready];
         rewrite ?a, ?Es; try reflexivity; try exact c0.
       intros j Hj. apply N.eqb_neq in Hj. rewrite Hj. apply b.
     + constructor; cbn [w_buf w_mod set_mod]; rewrite ?N.eqb_refl; cbn [w_mod set_mod]; rewrite ?N.eqb_refl;
-        cbn [timers nw inc bud tpanics ready shut set_ready set_shut]; rewrite ?a, ?Es; try reflexivity; try exact c0.
+        cbn [timers nw inc bud tpanics catchf ready shut set_ready set_shut]; rewrite ?a, ?Es; try reflexivity; try exact c0.
       intros j Hj. apply N.eqb_neq in Hj. rewrite !Hj. apply b.
 Qed.
